@@ -9,6 +9,28 @@
 #include <string>
 #include <vector>
 #include <sstream>
+#include <map>
+
+/* recording allocator (the C harness has the same in harness/main.c): every block the library obtains is entered with its
+   size; realloc / free must be given exactly that size; nothing may be left when the objects of an op are gone */
+static std::map<void *, size_t> ledger;
+static char alloc_msg[128];
+static void alloc_note(const char *what, size_t given, size_t block) {
+  if (!alloc_msg[0]) snprintf(alloc_msg, sizeof alloc_msg, " !alloc:%s:%zx:%zx", what, given, block);
+}
+static void *rec_alloc(size_t n) { void *p = malloc(n ? n : 1); if (!p) abort(); ledger[p] = n; return p; }
+static void *rec_realloc(void *p, size_t o, size_t n) {
+  std::map<void *, size_t>::iterator it = ledger.find(p);
+  if (it == ledger.end()) alloc_note("realloc-unknown", o, 0); else { if (it->second != o) alloc_note("realloc", o, it->second); ledger.erase(it); }
+  void *q = malloc(n ? n : 1); if (!q) abort();            /* always moving */
+  memcpy(q, p, o < n ? o : n); free(p); ledger[q] = n; return q;
+}
+static void rec_free(void *p, size_t n) {
+  std::map<void *, size_t>::iterator it = ledger.find(p);
+  if (it == ledger.end()) { alloc_note("free-unknown", n, 0); return; }
+  if (it->second != n) alloc_note("free", n, it->second);
+  ledger.erase(it); free(p);
+}
 
 struct Tok { int kind; /* 0 num 1 vec 2 str */ bool neg; std::vector<mp_limb_t> limbs; std::string s; };
 
@@ -107,7 +129,8 @@ static void pr_otail(std::ostringstream &os) {
 
 static bool run(const std::string &op, std::vector<Tok> &a) {
   size_t n = a.size(); long flags, state;
-  if (n < 2 || !tok_long(a[0], flags) || !tok_long(a[1], state) || flags < 0 || flags >= 8192 || state < 0 || state >= 8) return false;
+  bool rt = op == "cxx_io_rt_z" || op == "cxx_io_rt_q";
+  if (n < 2 || !tok_long(a[0], flags) || !tok_long(a[1], state) || flags < 0 || flags >= 8192 || state < 0 || state >= (rt ? 8192 : 8)) return false;
   if (op == "cxx_io_in_z") {
     if (n != 4 || a[2].kind != 2 || a[3].kind != 0) return false;
     std::istringstream is(a[2].s); is.flags(flags_of(flags)); is.clear(state_of(state));
@@ -132,6 +155,27 @@ static bool run(const std::string &op, std::vector<Tok> &a) {
     pr_long(st); printf(" "); pr_long(pos); printf(" "); pr_long(nx == std::char_traits<char>::eof() ? -1 : (long) (unsigned char) nx);
     printf(" "); pr_f(f.get_mpf_t()); return true;
   }
+  if (op == "cxx_io_rt_z" || op == "cxx_io_rt_q") {   /* here a[1] is the flag word of the input stream */
+    long fi = state, w, fl; bool q = op == "cxx_io_rt_q";
+    if (n != (q ? 8u : 6u) || !tok_long(a[2], w) || !tok_long(a[3], fl) || fl < 0 || fl > 255) return false;
+    for (size_t k = 4; k < n; k++) if (a[k].kind != 0) return false;
+    std::ostringstream os; os.flags(flags_of(flags)); os.width(w); os.fill((char) fl);
+    if (!q) {
+      mpz_class z, y; tok_mpz(z.get_mpz_t(), a[4]); tok_mpz(y.get_mpz_t(), a[5]);
+      os << z;
+      std::istringstream is(os.str()); is.flags(flags_of(fi));
+      is >> y;
+      pr_bytes(os.str()); printf(" "); pr_z(y.get_mpz_t()); pr_itail(is);
+    } else {
+      mpq_class x, y; tok_mpz(mpq_numref(x.get_mpq_t()), a[4]); tok_mpz(mpq_denref(x.get_mpq_t()), a[5]);
+      tok_mpz(mpq_numref(y.get_mpq_t()), a[6]); tok_mpz(mpq_denref(y.get_mpq_t()), a[7]);
+      os << x;
+      std::istringstream is(os.str()); is.flags(flags_of(fi));
+      is >> y;
+      pr_bytes(os.str()); printf(" "); pr_z(mpq_numref(y.get_mpq_t())); printf(" "); pr_z(mpq_denref(y.get_mpq_t())); pr_itail(is);
+    }
+    return true;
+  }
   long width, fill, prec;
   if (n < 5 || !tok_long(a[2], width) || !tok_long(a[3], fill) || !tok_long(a[4], prec) || fill < 0 || fill > 255) return false;
   std::ostringstream os; os.flags(flags_of(flags)); os.width(width); os.fill((char) fill); os.precision(prec); os.clear(state_of(state));
@@ -145,7 +189,7 @@ static bool run(const std::string &op, std::vector<Tok> &a) {
     mpq_class q; tok_mpz(mpq_numref(q.get_mpq_t()), a[5]); tok_mpz(mpq_denref(q.get_mpq_t()), a[6]);
     os << q; pr_otail(os); return true;
   }
-  if (op == "cxx_io_out_f") {
+  if (op == "cxx_io_out_f" || op == "cxx_io_out_fg") {
     long bits, e, sz;
     if (n != 9 || !tok_long(a[5], bits) || !tok_long(a[6], e) || !tok_long(a[7], sz) || a[8].kind != 1 || bits < 0) return false;
     long m = a[8].limbs.size();
@@ -153,13 +197,14 @@ static bool run(const std::string &op, std::vector<Tok> &a) {
     if (m > p->_mp_prec + 1 || (sz < 0 ? -sz : sz) != m || (m > 0 && a[8].limbs[m - 1] == 0)) return false;
     for (long i = 0; i < m; i++) p->_mp_d[i] = a[8].limbs[i];
     p->_mp_size = sz; p->_mp_exp = m ? e : 0;
-    if ((os.flags() & std::ios::basefield) == std::ios::hex || (os.flags() & std::ios::basefield) == std::ios::oct) { printf("!unmodelled"); return true; }
+    if (op == "cxx_io_out_f" && ((os.flags() & std::ios::basefield) == std::ios::hex || (os.flags() & std::ios::basefield) == std::ios::oct)) { printf("!unmodelled"); return true; }
     os << f; pr_otail(os); return true;
   }
   return false;
 }
 
 int main() {
+  mp_set_memory_functions(rec_alloc, rec_realloc, rec_free);
   std::string line;
   char buf[1 << 16];
   while (fgets(buf, sizeof buf, stdin)) {
@@ -170,7 +215,10 @@ int main() {
     std::vector<Tok> a(w.size() - 1); bool ok = true;
     for (size_t k = 1; k < w.size(); k++) if (!parse_tok(w[k], a[k - 1])) ok = false;
     if (!ok) { printf("?parse\n"); fflush(stdout); continue; }
+    alloc_msg[0] = 0;
     if (!run(w[0], a)) printf("?args");
+    if (alloc_msg[0]) printf("%s", alloc_msg);
+    if (!ledger.empty()) { printf(" !leak"); ledger.clear(); }
     printf("\n"); fflush(stdout);
   }
   return 0;
